@@ -2,8 +2,8 @@
 harness module fspersist (drives the real /api/snapshot/import route, parks it at every hook point of
 persist_snapshot, materialises every post-crash / post-power-loss directory TLC reaches and calls the real
 restore_persisted_snapshots on it)."""
-import json
-from ..core import ToolError
+import json, os, re
+from ..core import ToolError, sh
 
 GEN = """SPECIFICATION Spec
 CONSTANTS MaxImp = {maximp}
@@ -26,6 +26,30 @@ INVARIANTS TypeOK DirConsistent
 POSTCONDITION Post
 CHECK_DEADLOCK FALSE
 """
+
+BOOTGEN = """SPECIFICATION Spec
+CONSTANTS Legacy = {legacy}
+          MaxHist = 5
+VIEW View
+{emit}
+INVARIANTS BootOK
+CHECK_DEADLOCK FALSE
+"""
+
+
+def build_server(ctx):
+    """the real server binary (src/main.rs) of the tree the harness is bound to, built into the harness target directory"""
+    hdir = os.environ.get("VERIF_HARNESS_DIR") or os.path.join(ctx.root, "harness")
+    m = re.search(r'samyama\s*=\s*\{\s*path\s*=\s*"([^"]+)"', open(os.path.join(hdir, "Cargo.toml")).read())
+    if not m:
+        raise ToolError("cannot find the samyama path dependency in %s/Cargo.toml" % hdir)
+    env = {"CARGO_PROFILE_DEV_OPT_LEVEL": "1", "CARGO_PROFILE_DEV_DEBUG": "0"}
+    rc, out = sh(["cargo", "build", "--offline", "--bin", "samyama", "--manifest-path", os.path.join(m.group(1), "Cargo.toml"),
+                  "--target-dir", os.path.join(hdir, "target")], cwd=hdir, env=env, timeout=5400)
+    if rc != 0:
+        raise ToolError("building the samyama server binary failed:\n" + out[-3000:])
+    return os.path.join(hdir, "target", "debug", "samyama")
+
 
 PROBE = [{"op": "Import", "k": 1}] + [{"op": "Step"}] * 14 + [{"op": "Import", "k": 2}] + [{"op": "Step"}] * 14 + \
         [{"op": "Crash"}, {"op": "Restart"}]
@@ -75,7 +99,7 @@ def run(ctx):
     q = ctx.quick
     W = 4
     # (a) the design: the repaired step order, whole live graph written; every ip x {crash, power loss} x 1..3 imports
-    ctx.tlc_gen("MC_FsPersist", GEN.format(maximp=3, prog="<- ProgFixed", writeall="TRUE", maxdown=2 if q else 3, emit="",
+    ctx.tlc_gen("MC_FsPersist", GEN.format(maximp=3, prog="<- ProgFixed", writeall="TRUE", maxdown=2, emit="",
                                            inv="RestartOK", obs=obs_consts()), "design", workers=W, timeout=2400)
     # (b) anti-vacuity: each of these designs must violate RestartOK
     tests = [("legacy-marker-first", "<- ProgLegacy", "TRUE"), ("only-last-import", "<- ProgFixed", "FALSE")]
@@ -99,16 +123,38 @@ def run(ctx):
                                       writeall="TRUE" if writes_all else "FALSE", maxdown=1 if q else 2,
                                       emit="ACTION_CONSTRAINT Emit", inv=""), "crashpoints", workers=W, timeout=2400)
     scripts = drop_prefixes(scripts)
-    if q and len(scripts) > 1500:
+    if len(scripts) > (400 if q else 6000):
         ctx.rng.shuffle(scripts)
-        scripts = scripts[:1500]
+        scripts = scripts[:400 if q else 6000]
     ctx.assume("strict POSIX durability: fsync(file) makes the file's data durable, only fsync(directory) makes link/unlink/rename "
                "durable; a power loss keeps any dependency-closed subset of the un-fsynced directory operations and old, torn "
                "or new data of un-fsynced files",
                "the creation of <data>/snapshots itself and I/O errors during persist_snapshot are not modelled",
                "a process crash is the unwinding of the request thread at a hook point of persist_snapshot; restart = "
-               "restore_persisted_snapshots into a fresh store (the RocksDB branch of main.rs is not replayed)",
+               "restore_persisted_snapshots into a fresh store; the boot sequence of main.rs is covered separately (stage e)",
                "import k is a snapshot holding one node with property k; a graph is abstracted to the set of k it holds")
     sp = ctx.write_scripts("fspersist", scripts)
     tr = ctx.run_harness("fspersist", sp)
     ctx.validate("FsPersist_Trace", TRACE, tr)
+    # (e) whole-server view (src/main.rs boot sequence): the design restores RocksDB AND the snapshot; the pinned
+    #     `if !recovered` rule must violate BootOK; the histories are replayed on the REAL server binary (start, HTTP
+    #     import, RESP write, SIGKILL, start again, query).  Building the binary is slow when cold: thorough tier, or
+    #     VERIF_C14_BOOT=1.
+    ctx.tlc_gen("MC_FsPersistBoot", BOOTGEN.format(legacy="TRUE", emit=""), "selftest-boot-legacy", expect_violation=True, workers=2)
+    boot = ctx.tlc_gen("MC_FsPersistBoot", BOOTGEN.format(legacy="FALSE", emit="ACTION_CONSTRAINT Emit"), "boot-design", workers=2)
+    if not q or os.environ.get("VERIF_C14_BOOT"):
+        server = build_server(ctx)
+        bp = ctx.write_scripts("boot", drop_prefixes(boot))
+        btr = ctx.run_harness("fspersist", bp, name="boot", args=["server=" + server], timeout=1800)
+        ctx.validate("FsPersistBoot_Trace", TRACE.replace("CONSTANTS MaxImp = 9\n          OpenKF", "CONSTANTS OpenKF").replace(
+            "INVARIANTS TypeOK DirConsistent\n", ""), btr, name="FsPersistBoot_Trace", corrupt=corrupt_boot)
+    else:
+        ctx.assume("quick tier: the boot sequence of main.rs (RocksDB recovery vs snapshot restore) is model-checked only; it is "
+                   "replayed on the real server binary in the thorough tier (or with VERIF_C14_BOOT=1)")
+
+
+def corrupt_boot(ev, rng):
+    if ev.get("ev") == "BootRestart" and "obs" in ev:
+        ev["obs"]["g"] = ev["obs"]["g"] + [7]
+        return True
+    return False
